@@ -35,7 +35,8 @@ def main():
         have = os.path.exists(os.path.join(VERIF, "mc", "checks", pid.lower() + ".py"))
         if m and m.get("claimed") and have and pid in accepted:
             for e in m["engine"].split("+"):
-                served[e].append(pid)
+                if e in served:
+                    served[e].append(pid)
             checks.append({
                 "property_id": pid,
                 "quick_cmd": f"./check {pid} --tier quick",
